@@ -228,8 +228,15 @@ impl InferShapes for Where {
                     }
                 })
                 .collect();
-            if let Some(vals) = vals {
-                return Ok([SymTensor::from_vec(vals)].into());
+            if let Some(mut vals) = vals {
+                // The result is a scalar only if all inputs are scalars.
+                let all_scalars = [cond, x, y].iter().all(|t| t.as_scalar().is_some());
+                let result = if all_scalars && vals.len() == 1 {
+                    SymTensor::from_scalar(vals.remove(0))
+                } else {
+                    SymTensor::from_vec(vals)
+                };
+                return Ok([result].into());
             }
         }
 
